@@ -12,7 +12,9 @@ from abc import ABC
 
 def round_node(node: schemdraw.util.Point) -> schemdraw.util.Point:
     def local_round(x):
-        return round(x, ndigits=2)
+        # coordinates carry floating-point noise from the placement arithmetic: keep the rounding boundary away from the exact
+        # half-way points x.xx5, where coincident terminals would otherwise be snapped to different hundredths
+        return round(x + 1e-9, ndigits=2)
     return schemdraw.util.Point((local_round(node.x), local_round(node.y)))
 
 def get_nodes(element: schemdraw.elements.Element, n_labels: tuple[str, ...]=('start', 'end')) -> list[schemdraw.util.Point]:
